@@ -26,6 +26,8 @@ func main() {
 		switch *layer {
 		case "tracer":
 			driveTracer(*seed, *n, *size, em)
+		case "precompile":
+			drivePrecompile(*seed, *n, *size, em)
 		case "journal":
 			driveJournal(*seed, *n, *size, em, *size >= 100)
 		default:
